@@ -271,10 +271,12 @@ def aggCheck (c : Crypto) (chained : Bool) (g : GroupView) (cache : Cache) (last
         else (cache', .candidate rc finalSig)
   | (cache', _) => (cache', .appendErr)
 
+/-- the aggregator's `lastBeacon`, loaded from the store the first time it is needed -/
+def Node.aggView (s : Node) : Beacon := match s.aggLast with | some b => b | none => s.last
+
 /-- one iteration of `case partial := <-c.newPartials` -/
 def aggOne (c : Crypto) (s : Node) (p : Partial) : Node × AggRes :=
-  -- lastBeacon is loaded lazily
-  let last := match s.aggLast with | some b => b | none => s.last
+  let last := s.aggView
   let s := { s with aggLast := some last }
   match aggCheck c s.chained s.group s.cache last p with
   | (cache', .candidate rc finalSig) =>
